@@ -79,6 +79,42 @@ func ConstEntries() []Entry {
 			f.Use(x.t, r)
 			f.End("")
 		}},
+		{Name: "int-literals", Build: func(f *Frag) {
+			// spellings of integer constants, also OUT OF RANGE for their type (LLVM and the
+			// library accept them; LLVM keeps the low bits) and values the printer renders in
+			// hexadecimal; as a global initialiser and as an instruction operand.
+			lits := []tc{{"i32", "7"}, {"i8", "4096"}, {"i8", "300"}, {"i8", "256"}, {"i8", "-129"}, {"i8", "-4096"}, {"i8", "8192"}, {"i16", "1048576"}, {"i16", "65536"}, {"i32", "4294967296"}, {"i32", "4096"}, {"i32", "u0x1000"}, {"i32", "-4096"}, {"i64", "65536"}, {"i64", "18446744073709551616"}, {"i8", "u0xFF"}, {"i8", "s0xFF"}, {"i8", "u0x1FF"}, {"i4", "s0xFF"}, {"i4", "u0x1F"}, {"i1", "1"}, {"i1", "0"}, {"i1", "2"}, {"i33", "8589934591"}, {"i128", "340282366920938463463374607431768211456"}, {"i32", "007"}, {"i32", "-0"}}
+			x := lits[f.N("literal", len(lits))]
+			if f.Flip("operand") {
+				f.Func("void")
+				a := f.Param(x.t)
+				r := f.Res()
+				f.Line("%s = add %s %s, %s", r, x.t, a, x.c)
+				f.Use(x.t, r)
+				f.End("")
+			} else {
+				f.TopLine("@%s = global %s %s", f.Uniq("g"), x.t, x.c)
+			}
+		}},
+		{Name: "alias-typed-constants", Build: func(f *Frag) {
+			// a constant whose type is written through a type alias (`%b = type i1`): the alias
+			// belongs to this module; the constant objects of other modules (and the shared
+			// singletons of the library) must not learn it.
+			alts := []tc{{"i1", "true"}, {"i1", "false"}, {"i32", "5"}, {"float", "1.5"}, {"double", "0x7FF0000000000000"}, {"i8*", "null"}, {"<2 x i32>", "zeroinitializer"}, {"<2 x i32>", "<i32 1, i32 2>"}, {"[2 x i8]", `c"ab"`}, {"i32", "undef"}, {"i32", "poison"}, {"half", "0xH3C00"}}
+			x := alts[f.N("constant", len(alts))]
+			al := "%" + f.P + "al"
+			f.TopLine("%s = type %s", al, x.t)
+			switch f.N("position", 4) {
+			case 0:
+				f.TopLine("@%s = global %s %s", f.Uniq("g"), al, x.c)
+			case 1:
+				f.TopLine("define %s @%s() {\n  ret %s %s\n}", al, f.Uniq("f"), al, x.c)
+			case 2:
+				f.TopLine("@%s = global { %s, i8 } { %s %s, i8 1 }", f.Uniq("g"), al, al, x.c)
+			case 3:
+				f.TopLine("define %s @%s(i1 %%c, %s %%x) {\n  %%r = select i1 %%c, %s %%x, %s %s\n  ret %s %%r\n}", al, f.Uniq("f"), al, al, al, x.c, al)
+			}
+		}},
 		{Name: "float-literals", Build: func(f *Frag) {
 			lits := []tc{{"float", "0.0"}, {"float", "-0.0"}, {"float", "1.0"}, {"float", "3.5e+00"}, {"float", "0x36A0000000000000"}, {"float", "0x7FF8000000000000"}, {"float", "0x47EFFFFFE0000000"}, {"double", "0.1"}, {"double", "1.0e-320"}, {"double", "0xFFF0000000000000"}, {"double", "1.7976931348623157e+308"}, {"double", "123456789.0"}, {"half", "0xH0001"}, {"half", "0xH7C00"}, {"half", "1.0"}, {"half", "0x3F00000000000000"}, {"x86_fp80", "0xK00000000000000000001"}, {"x86_fp80", "0xK7FFF8000000000000000"}, {"fp128", "0xL00000000000000007FFF000000000000"}, {"ppc_fp128", "0xM00000000000000000000000000000000"}}
 			x := lits[f.N("literal", len(lits))]
